@@ -391,7 +391,23 @@ def run(rep):
         compared="per entry (archive_write_header, archive_write_finish_entry) return codes; every object under target: path, type, "
                  "symlink target, content, permission bits, hard-link group, mtime of regular files when TIME is set; the canary dump; "
                  "NOT compared: mtimes of directories/fifos/symlinks under target, ownership")
+    try:
+        gen = open(os.path.join(vlib.COQ, "Gen", "FsSecConsts.v")).read()
+        shape = {k: ("%s : bool := true" % k) in gen for k in ("CLOSE_CHECKS_FIXUP_PATH", "HARDLINK_DATA_NONREG_CLEARS_TODO")}
+    except OSError:
+        shape = {}
+    rep.coverage.update(code_shape_flags=shape, theorem_status=dict(
+        proved=["C04_cleanup_is_spec", "C04_cleanup_sound", "C04_cleanup_refusals", "C04_walk_inside",
+                "C04_step_confined_partial (all entries except hard links carrying data; cleaned names < PATH_MAX)",
+                "C04_entries_confined_partial", "C04_run_confined_fixed_close",
+                "C04_run_confined (conditional: the source's close loop walks the fix-up name)",
+                "C04_refused_by_sanitiser_noop", "C04_refused_by_symlink_check_noop"],
+        refuted=["C04_run_confined_refuted (while CLOSE_CHECKS_FIXUP_PATH = false): key C04:fixup:intermediate-symlink",
+                 "C04_step_confined_refuted (while HARDLINK_DATA_NONREG_CLEARS_TODO = false): key C04:hardlink-data:chmod-follows-symlink"]))
     rep.assumptions += [
+        "the model follows two structural facts of the source, regenerated on every run (translators/gen_fsSec.py): whether "
+        "_archive_write_disk_close walks the fix-up name with check_symlinks_fsobj, and whether create_filesystem_object clears "
+        "a->todo for a hard-link entry with data whose target is not a regular file",
         "sequential model: no concurrent attacker between check and use (TOCTOU is outside the model)",
         "permissions are stored, not enforced; the harness runs as root inside chroot(sandbox), which bypasses permission checks too",
         "check_symlinks_fsobj / create_dir / edit_deep_directories are modelled on path components, exact for cleaned names",
